@@ -8,6 +8,7 @@ package crlrepository
 
 //@ type Entry
 //@   guarded_by entryLock: CRLStore, Loaded, LastUpdateSignatureVerifyFailed, LastUpdateSignature, Chains
+//@   owns entryLock: CRLStore readers GetCertRevocationStatus GetCRLMetaInfo GetCRLExtMetaInfo GetCRLSignatureCert GetCRLLocations IsEmpty
 //@   immutable: entryLock, CRLLoader
 //@   invariant[C08,C09,C13] store_present: self.CRLStore != nil && storeOK(self.CRLStore) && !isTempStore(self.CRLStore)
 //@   invariant[C13] failed_has_result: self.LastUpdateSignatureVerifyFailed ==> resultOK(self.LastUpdateSignature)
